@@ -22,7 +22,9 @@ Corruptions == {"len", "roi", "unknown", "missing", "index", "indexoffset", "chc
                 \* "nopower": a counted laser without its power key
                 "nopower",
                 \* counts of zero although channels / lasers are there
-                "chcount0", "lasers0"}
+                "chcount0", "lasers0",
+                \* "indexlen": a stored index feature with fewer entries than events
+                "indexlen"}
 \* corruptions of the metadata survive a copy of the file - except for the keys
 \* that the writer derives from the data whenever it closes a file (ROI size,
 \* samples per event): a copy repairs those, which is not held against it
@@ -32,7 +34,7 @@ Class(c) == CASE c = "len" -> "feature length differs from the event count"
               [] c = "roi" -> "image size contradicts the ROI metadata"
               [] c = "unknown" -> "unknown feature"
               [] c \in {"missing", "flmissing"} -> "mandatory metadata missing"
-              [] c \in {"index", "indexoffset"} -> "index does not enumerate the events"
+              [] c \in {"index", "indexoffset", "indexlen"} -> "index does not enumerate the events"
               [] c \in {"chcount", "chcount0"} -> "fluorescence channel count contradicts the data"
               [] c \in {"lasers", "nopower", "lasers0"} -> "laser count contradicts the metadata"
               [] c = "samples" -> "samples per event contradict the trace length"
@@ -74,7 +76,7 @@ Init == /\ path \in WritePaths
         /\ (copied # "no") => corr \subseteq MetaCorruptions
         \* two corruptions of the same key do not both show
         /\ ~({"chwzero", "missing"} \subseteq corr)
-        /\ ~({"index", "indexoffset"} \subseteq corr)
+        /\ Cardinality({"index", "indexoffset", "indexlen"} \cap corr) <= 1
         /\ ~({"lasers", "nopower"} \subseteq corr)
         /\ ~({"chcount", "chcount0"} \subseteq corr)
         /\ Cardinality({"lasers", "nopower", "lasers0"} \cap corr) <= 1
